@@ -23,7 +23,7 @@ from hpstatic.interp import Interp, expr_term
 from hpstatic.loader import AnalysisError
 from hpstatic.poly import Canon
 from hpstatic.terms import sym, intern, show, subterms, num
-from .common import THEORY
+from .common import THEORY, init_of
 
 MUTATION_TARGETS = {'holopy/scattering/theory/tmatrix.py': ['_parse_args', '_run_tmat', 'can_handle', 'raw_fields', 'raw_scat_matrs']}
 
@@ -344,12 +344,70 @@ def handoff(check, prog):
                   'accepted classes %s all have a branch, every other class is '
                   'refused by both (%d classes)' % (accepted, len(classes)), loc,
                   fail_detail='; '.join(disagree[:4]))
+    size_guards(check, prog, [C for C in classes if C and
+                              C.rpartition('.')[2] in accepted])
     # the per-point 2 x 2 blocks: which ampld output sits where
     sphere_limit(check, prog)
 
 
 
 # ----------------------------------------------------------------------
+def size_guards(check, prog, accepted):
+    """Every scatterer class the T-matrix theory accepts refuses a negative size
+    when it is built, with the library's InvalidScatterer: the sizes go straight
+    into the compiled solver (equal-volume radius, aspect ratio), which answers a
+    negative one with a segmentation fault or a STOP -- and a model evaluates a
+    scatterer at whatever the sampler proposes inside the priors' support, relying
+    on InvalidScatterer to turn the proposal into log-prior = -inf."""
+    q = TMATRIX + '._parse_args'
+    for C in sorted(accepted):
+        cname = C.rpartition('.')[2]
+        # the attributes of the scatterer that reach the solver's size arguments
+        it = Interp(prog, max_depth=1)
+        s_ = sym('S')
+        it.types[s_] = C
+        res = it.analyze(q, args={'scatterer': s_})
+        ret = res.ret
+        if ret[0] != 'list' or len(ret[1]) != 15:
+            raise AnalysisError('Tmatrix._parse_args: 15 solver arguments expected')
+        sizes = sorted({x[2] for t in (ret[1][0], ret[1][5]) for x in subterms(t)
+                        if x[0] == 'attr' and x[1] == s_})
+        check.need('size attributes of %s read by Tmatrix._parse_args' % cname,
+                   len(sizes), 1, 'E3-size-guard', cname + ' sizes',
+                   'the equal-volume radius and the aspect ratio are computed from '
+                   'the scatterer\'s size attributes', prog.loc(q, prog.func(q)))
+        owner, fdi = init_of(prog, C)
+        if fdi is None:
+            check.bad('E3-size-guard', cname, 'no constructor found', '')
+            continue
+        qi = owner + '.__init__'
+        iti = Interp(prog, max_depth=2)
+        ri = iti.analyze(qi)
+        params = {a.arg for a in fdi.args.args}
+        guarded = set()
+        for o in ri.raises:
+            if 'InvalidScatterer' not in show(o.value):
+                continue
+            for t, pol in o.cond:
+                if pol is not True:
+                    continue
+                for x in subterms(t):
+                    if x[0] == 'cmp' and x[1] in ('<', '<=') and x[3] == num(0):
+                        guarded |= {y[1] for y in subterms(x[2]) if y[0] == 'sym'}
+        for a in sizes:
+            check.require(a in guarded and a in params, 'E3-size-guard',
+                          '%s.%s' % (cname, a),
+                          '%s(%s < 0) raises InvalidScatterer' % (cname, a),
+                          prog.loc(qi, fdi),
+                          fail_detail='%s.__init__ has no path raising '
+                          'InvalidScatterer when %s is negative: a model with a prior '
+                          'on it whose support includes negative values (a Gaussian) '
+                          'gets a finite log-prior there and hands the size to the '
+                          'compiled T-matrix code, which kills the interpreter '
+                          '(segmentation fault for a Spheroid, STOP for a Cylinder) '
+                          'where a Sphere gives log-prior = -inf' % (cname, a))
+
+
 def _mat2(rows):
     return [[rows[0][0], rows[0][1]], [rows[1][0], rows[1][1]]]
 
